@@ -1,0 +1,35 @@
+//go:build verif
+
+package nbt
+
+import (
+	"encoding/hex"
+	"reflect"
+	"strconv"
+	"strings"
+)
+
+// VerifTypeFields renders cachedTypeFields(t) for the verification harness: one entry per field in list
+// order, "hexname:i.j.k:flags" with flags o (omitempty), l (list), t (name from a tag), joined by ";".
+func VerifTypeFields(t reflect.Type) string {
+	fs := cachedTypeFields(t)
+	parts := make([]string, 0, len(fs.list))
+	for _, f := range fs.list {
+		idx := make([]string, len(f.index))
+		for i, x := range f.index {
+			idx[i] = strconv.Itoa(x)
+		}
+		flags := ""
+		if f.omitEmpty {
+			flags += "o"
+		}
+		if f.asList {
+			flags += "l"
+		}
+		if f.tag {
+			flags += "t"
+		}
+		parts = append(parts, hex.EncodeToString([]byte(f.name))+":"+strings.Join(idx, ".")+":"+flags)
+	}
+	return strings.Join(parts, ";")
+}
